@@ -26,7 +26,7 @@ ASSUMPTIONS = ['vf/xlref criterion semantics = the clauses of the statement', 'b
 HOST_SETTINGS = {'shards': lambda shards: [0, len(shards) - 1], 'env': {'VERIF_HOST_DECIMAL': '3'}}
 FLOORS = {'quick': {'evaluations': 8000, 'nontrivial': 3000, 'counters': {'clock_checks': 300}}, 'thorough': {'evaluations': 250000, 'nontrivial': 100000, 'counters': {'clock_checks': 2000}}}
 
-TEXTS = ['12345678901-1', 'acct 40702810500000012345', '1:99999999999999999999', 'Total\n2024', 'ap\nple', 'a\tb', 'apple', 'Apple', 'APPLE', 'pear', 'a.c', 'abc', 'a*b', 'a?c', '[x]', 'x+y', 'pine apple', 'ap',
+TEXTS = ['apple\n', 'pear\n', 'ap\n', 'apple\n\n', 'a*b\n', '12345678901-1', 'acct 40702810500000012345', '1:99999999999999999999', 'Total\n2024', 'ap\nple', 'a\tb', 'apple', 'Apple', 'APPLE', 'pear', 'a.c', 'abc', 'a*b', 'a?c', '[x]', 'x+y', 'pine apple', 'ap',
          # tildes in cells: literal tildes are written ~~ in a pattern, and a wildcard after ~~ is a live wildcard again
          '~', '~a', 'v~x', '~*', 'a~b', '~~', 'v~', '~apple',
          # words a date parser takes for dates: month and weekday names are plain texts
